@@ -279,6 +279,17 @@ SPECS = {
         ("voce_slope", R + "Models/InElastic/IsotropicHardening.py", "        lambda p: Q * b * np.exp(-b * p),", "        lambda p: Q * b * np.exp(-b * p) * 0.8,"),
         ("viscoelastic_rate_sign", R + "Models/InElastic/_behavior.py", "            r_e_pg[..., slot] = u_e_pg[..., slot] - (dt / branch.tau) * (\n                eel_e_pg - z_e_pg[..., slot]\n            )", "            r_e_pg[..., slot] = u_e_pg[..., slot] + (dt / branch.tau) * (\n                eel_e_pg - z_e_pg[..., slot]\n            )"),
     ],
+    "C20": [
+        ("ghost_search_own_type_nodes_only", R + "FEM/_mesher.py", "            nodes_arr = np.array(list(dict_rank_nodes[rank]), dtype=int)", "            nodes_arr = np.array(list(nodes), dtype=int)"),
+        ("ghost_search_vertices_only", R + "FEM/_mesher.py", "                mask = np.isin(other_connect, nodes_arr).any(axis=1)", "                mask = np.isin(other_connect[:, : max(other_connect.shape[1] // 2, 1)], nodes_arr).any(axis=1)"),
+        ("ghost_elements_not_recorded", R + "FEM/_mesher.py", "                elements[idx_r], nodes_arr, rank, elements[list(ghost_idx)]", "                elements[idx_r], nodes_arr, rank, elements[list(ghost_idx)][:-1]"),
+        ("node_claimed_twice", R + "FEM/_mesher.py", "                *(dict_rank_nodes[r] for r in range(Nproc) if r != rank)", "                *(dict_rank_nodes[r] for r in range(Nproc) if r < rank)"),
+        ("partition_data_unsorted", GE, "        elements = np.sort(np.asarray(elements, dtype=int))", "        elements = np.asarray(elements, dtype=int)"),
+        ("merge_not_transitive", MESH, "                _, labels = connected_components(graph, directed=False)", "                labels = np.arange(N)\n                labels[pairs[:, 1]] = labels[pairs[:, 0]]\n                labels = np.unique(labels, return_inverse=True)[1]"),
+        ("merge_mapping_offset", MESH, "            mapping = [old_to_new[off : off + s] for off, s in zip(offsets, sizes)]", "            mapping = [old_to_new[off : off + s] for off, s in zip(offsets[::-1], sizes)]"),
+        ("merge_keeps_duplicate_elements", MESH, "                _, unique_idx = np.unique(connect_view, return_index=True)\n                connect = connect[unique_idx]", "                _, unique_idx = np.unique(connect_view[: len(connect_view) // 2 + 1], return_index=True)\n                connect = np.vstack([connect[unique_idx], connect[len(connect_view) // 2 + 1 :]])"),
+        ("owned_nodes_first_group_only", MESH, "        return np.unique(\n            np.concatenate(\n                [groupElem._Get_partitioned_data()[3] for groupElem in list_groupElem]\n            )\n        )", "        return list_groupElem[0]._Get_partitioned_data()[3]"),
+    ],
 }
 
 
